@@ -684,7 +684,8 @@ func (f *frame) loopInvariants(li *loopInfo, phis []*ssa.Phi) []invariant {
 			continue
 		}
 		lo, hi, ok := f.inferBounds(li, phi)
-		if !ok {
+		if !ok || (lo != nil && hi == nil) {
+			// a lower bound alone is not inductive under wrap-around (an unbounded counter may overflow)
 			continue
 		}
 		out = append(out, invariant{label: "auto." + phi.Name() + "." + sanitize(phi.Comment), at: func(st *hstate, pv map[*ssa.Phi]string) string {
